@@ -18,9 +18,10 @@ import json
 from .version import Version, LATEST_VER
 
 # Trailing newline sanitation
-TRAILING_NL_RE = re.compile(r'\n+$')
+TRAILING_NL_RE = re.compile(r'(?:\r?\n)+$')
 
-GRID_SEP = re.compile(r'(?<=\n)\n+')
+# Grids are separated by one or more blank lines (LF or CRLF line ends)
+GRID_SEP = re.compile(r'(?<=\n)(?:\r?\n)+')
 
 MODE_ZINC = 'text/zinc'
 MODE_JSON = 'application/json'
@@ -73,7 +74,13 @@ def parse(grid_str, mode=MODE_ZINC, charset='utf-8', single=True):
         if isinstance(grid_data, dict):
             grid_data = [grid_data]
     else:
-        grid_data = GRID_SEP.split(TRAILING_NL_RE.sub('\n', grid_str))
+        # Every grid, the last one included, ends with exactly one newline,
+        # whether or not the document had a final newline; an empty
+        # document holds no grid at all.
+        grid_str = TRAILING_NL_RE.sub('', grid_str)
+        if grid_str:
+            grid_str += '\n'
+        grid_data = [g for g in GRID_SEP.split(grid_str) if g]
 
     grids = list(map(_parse, grid_data))
     if single:
